@@ -5,6 +5,22 @@ import os
 VERIF = os.path.dirname(os.path.dirname(os.path.abspath(__file__)))
 
 CLAIMED = {
+    "C01": dict(
+        technique="TLA+ semantics of drafts 3/4/6/7 (Semantics.tla) calibrated on the official suite; TLC enumerates the "
+                  "SchemaBuilder universe (MC_Schema) and exports verdict vectors replayed into the validator classes; "
+                  "random deep schemas trace-validated by TLC (Trace_Verdict)",
+        text="An explicit TLA+ semantics of the four drafts, written from the drafts and first required to reproduce all "
+             "expected verdicts of the bundled official test suite, is evaluated by TLC over every reachable state of a "
+             "schema-builder machine (every pool value of every keyword, all pairs/orders inside interacting families, "
+             "every single wrapped under every applicator; thorough: family triples and all keyword pairs) against a "
+             "fixed list of 38 instances; each (schema, instance) verdict is replayed into the real class. In the other "
+             "direction, verdicts the real classes give on seeded random deep schemas are validated record by record by "
+             "TLC. Regexes outside the modelled subset and inexact float multipleOf are predicates of the spec and are "
+             "skipped, counted in the evidence.",
+        note="Trusted: TLC, the encoder, the regex-subset parser only insofar as TLC re-renders each AST to the pattern "
+             "text. The quantifier is the property's: schemas check_schema accepts (acceptance itself is C11); crashes are "
+             "C03's. Exhaustive within the universe bounds, sampled beyond.",
+        design="5 C01"),
     "C08": dict(
         technique="TLA+ JsonEq spec; TLC enumerates pair/array universes (MC_C08, MC_C08U) with equivalence/congruence laws, "
                   "exports replayed into enum/const/uniqueItems; random deep pairs trace-validated by TLC (Trace_C08)",
